@@ -1066,3 +1066,482 @@ theorem handlers_modelled :
   decide +kernel
 
 end Docstring
+
+/-! ## 11. block slicing: literal and doctest blocks -/
+namespace Epytext
+
+def SpacesOnly (l : Line) : Prop := ∀ c ∈ l, c = ' '
+
+theorem isSpNl_space : isSpNl ' ' = true := by decide
+
+theorem indentOf_eq (l : Line) : indentOf l = (l.takeWhile pyIsSpace).length := by
+  unfold indentOf
+  have := congrArg List.length (List.takeWhile_append_dropWhile (p := pyIsSpace) (l := l))
+  simp at this
+  omega
+
+theorem dropWhile_spaces {l : Line} (h : SpacesOnly l) : l.dropWhile pyIsSpace = [] := by
+  induction l with
+  | nil => rfl
+  | cons c cs ih =>
+    have hc : c = ' ' := h c (by simp)
+    subst hc
+    have : pyIsSpace ' ' = true := by decide
+    simp [List.dropWhile, this, ih (fun x hx => h x (by simp [hx]))]
+
+theorem blank_of_spaces {l : Line} (h : SpacesOnly l) : l.length = indentOf l := by
+  simp [indentOf, dropWhile_spaces h]
+
+theorem spaces_drop {l : Line} (h : SpacesOnly l) (n : Nat) : SpacesOnly (l.drop n) :=
+  fun c hc => h c (List.mem_of_mem_drop hc)
+
+/-- the lines the `_tokenize_literal` loop walks over: blank, or indented deeper than the paragraph -/
+def Continues (bi : Nat) (l : Line) : Prop := l.length = indentOf l ∨ bi < indentOf l
+
+theorem litLoop_run (bi : Nat) (after : List Line)
+    (ha : after = [] ∨ ∃ a as, after = a :: as ∧ a.length ≠ indentOf a ∧ indentOf a ≤ bi) :
+    ∀ (xs : List Line) (n : Nat), (∀ l ∈ xs, Continues bi l) → litLoop bi (xs ++ after) n = n + xs.length := by
+  intro xs
+  induction xs with
+  | nil =>
+    intro n _
+    rcases ha with rfl | ⟨a, as, rfl, h1, h2⟩
+    · simp [litLoop]
+    · simp [litLoop, h1, h2]
+  | cons x xs ih =>
+    intro n hx
+    have hc := hx x (by simp)
+    have : ¬(x.length ≠ indentOf x ∧ indentOf x ≤ bi) := by
+      rcases hc with h | h
+      · simp [h]
+      · intro ⟨_, h2⟩; omega
+    simp only [List.cons_append, litLoop, this, if_false]
+    rw [ih (n + 1) (fun l hl => hx l (by simp [hl]))]
+    simp; omega
+
+theorem slice_mid {α} (before mid after : List α) :
+    slice (before ++ mid ++ after) before.length (before.length + mid.length) = mid := by
+  unfold slice
+  rw [List.append_assoc, List.take_append_eq_append_take]
+  simp
+
+/-- the loop and the slice of `_tokenize_literal`: the token holds the lines from `start` to the first
+non-blank line indented no deeper than the paragraph, each without its first `block_indent` characters -/
+theorem tokenizeLiteral_slice (before : List Line) (x : Line) (xs after : List Line) (bi : Nat)
+    (hxs : ∀ l ∈ xs, Continues bi l)
+    (ha : after = [] ∨ ∃ a as, after = a :: as ∧ a.length ≠ indentOf a ∧ indentOf a ≤ bi) :
+    tokenizeLiteral (before ++ (x :: xs) ++ after) before.length bi =
+      (stripBlankEnds (joinNL ((x :: xs).map (·.drop bi))), before.length + 1 + xs.length) := by
+  unfold tokenizeLiteral
+  have hdrop : (before ++ (x :: xs) ++ after).drop (before.length + 1) = xs ++ after := by
+    rw [List.append_assoc, ← List.drop_drop, List.drop_left]
+    rfl
+  rw [hdrop, litLoop_run bi after ha xs _ hxs]
+  have : before.length + 1 + xs.length = before.length + (x :: xs).length := by simp; omega
+  rw [this, slice_mid]
+
+/-! ### `re.sub(r'(\A[ \n]*\n)|(\n[ \n]*\Z)', '', contents)` removes the blank lines around the block and nothing else -/
+
+theorem takeWhile_all {α} (p : α → Bool) (l r : List α) (h : ∀ x ∈ l, p x = true) :
+    (l ++ r).takeWhile p = l ++ r.takeWhile p := by
+  induction l with
+  | nil => rfl
+  | cons a as ih =>
+    simp [List.takeWhile, h a (by simp), ih (fun x hx => h x (by simp [hx]))]
+
+theorem takeWhile_stop {α} (p : α → Bool) (l : List α) (c : α) (r : List α) (h : ∀ x ∈ l, p x = true)
+    (hc : p c = false) : (l ++ c :: r).takeWhile p = l := by
+  rw [takeWhile_all p l _ h]
+  simp [List.takeWhile, hc]
+
+theorem spaces_no_nl {R : List Char} (h : ∀ x ∈ R, x = ' ') : R.contains '\n' = false := by
+  induction R with
+  | nil => rfl
+  | cons a as ih =>
+    have : a = ' ' := h a (by simp)
+    subst this
+    have hne : (' ' == '\n') = false := by decide
+    simp only [List.contains_cons, ih (fun x hx => h x (by simp [hx]))]
+    simp
+
+theorem spaces_spnl {R : List Char} (h : ∀ x ∈ R, x = ' ') : ∀ x ∈ R, isSpNl x = true :=
+  fun x hx => by rw [h x hx]; decide
+
+theorem spaces_ne_nl {R : List Char} (h : ∀ x ∈ R, x = ' ') : ∀ x ∈ R, (decide (x ≠ '\n')) = true :=
+  fun x hx => by rw [h x hx]; decide
+
+/-- a run of blank lines in front: empty, or blanks and newlines ending with a newline -/
+def LeadBlank (pre : List Char) : Prop := pre = [] ∨ ((∀ x ∈ pre, isSpNl x = true) ∧ ∃ p, pre = p ++ ['\n'])
+
+theorem cutLead_blank_prefix (pre R : List Char) (c : Char) (rest : List Char) (hpre : LeadBlank pre)
+    (hR : ∀ x ∈ R, x = ' ') (hc : isSpNl c = false) :
+    cutLead (pre ++ (R ++ c :: rest)) = R ++ c :: rest := by
+  unfold cutLead
+  rcases hpre with rfl | ⟨hall, p, rfl⟩
+  · simp only [List.nil_append]
+    rw [takeWhile_stop isSpNl R c rest (spaces_spnl hR) hc]
+    simp [spaces_no_nl hR]
+  · have hrun : ((p ++ ['\n']) ++ (R ++ c :: rest)).takeWhile isSpNl = (p ++ ['\n']) ++ R := by
+      rw [← List.append_assoc, takeWhile_stop isSpNl ((p ++ ['\n']) ++ R) c rest _ hc]
+      intro x hx
+      rcases List.mem_append.mp hx with h | h
+      · exact hall x h
+      · exact spaces_spnl hR x h
+    rw [hrun]
+    have hcont : ((p ++ ['\n']) ++ R).contains '\n' = true := by simp
+    simp only [hcont, if_true]
+    have hrev : ((p ++ ['\n']) ++ R).reverse = R.reverse ++ '\n' :: p.reverse := by simp
+    rw [hrev, takeWhile_stop (fun x => decide (x ≠ '\n')) R.reverse '\n' p.reverse
+      (fun x hx => spaces_ne_nl hR x (List.mem_reverse.mp hx)) (by decide)]
+    rw [List.reverse_reverse]
+    have hlen : ((p ++ ['\n']) ++ R).length = (p ++ ['\n'] ++ R).length := rfl
+    rw [← List.append_assoc, List.drop_left]
+
+/-- a run of blank lines behind: empty, or a newline followed by blanks and newlines -/
+def TrailBlank (post : List Char) : Prop := post = [] ∨ ((∀ x ∈ post, isSpNl x = true) ∧ ∃ p, post = '\n' :: p)
+
+theorem cutTrail_blank_suffix (body : List Char) (c : Char) (R post : List Char) (hpost : TrailBlank post)
+    (hR : ∀ x ∈ R, x = ' ') (hc : isSpNl c = false) :
+    cutTrail ((body ++ c :: R) ++ post) = body ++ c :: R := by
+  unfold cutTrail
+  have hrev : ((body ++ c :: R) ++ post).reverse = (post.reverse ++ R.reverse) ++ c :: body.reverse := by simp
+  have hall : ∀ x ∈ post.reverse ++ R.reverse, isSpNl x = true := by
+    intro x hx
+    rcases List.mem_append.mp hx with h | h
+    · rcases hpost with rfl | ⟨hp, _⟩
+      · simp at h
+      · exact hp x (List.mem_reverse.mp h)
+    · exact spaces_spnl hR x (List.mem_reverse.mp h)
+  rw [hrev, takeWhile_stop isSpNl _ c _ hall hc]
+  have hrun : (post.reverse ++ R.reverse).reverse = R ++ post := by simp
+  rw [hrun]
+  rcases hpost with rfl | ⟨_, p, rfl⟩
+  · simp [spaces_no_nl hR]
+  · have hcont : (R ++ '\n' :: p).contains '\n' = true := by simp
+    simp only [hcont, if_true]
+    rw [takeWhile_stop (fun x => decide (x ≠ '\n')) R '\n' p (spaces_ne_nl hR) (by decide)]
+    have : ((body ++ c :: R) ++ '\n' :: p).length - (R ++ '\n' :: p).length = (body ++ [c]).length := by
+      simp; omega
+    rw [this]
+    have : (body ++ c :: R) ++ '\n' :: p = (body ++ [c]) ++ (R ++ '\n' :: p) := by simp
+    rw [this, List.take_left]
+    simp
+
+theorem joinNL_cons (l : Line) (ls : List Line) (h : ls ≠ []) : joinNL (l :: ls) = l ++ '\n' :: joinNL ls := by
+  cases ls with
+  | nil => exact absurd rfl h
+  | cons a as => rfl
+
+/-- blank lines before the block -/
+def leadChars (A : List Line) : List Char := (A.map (· ++ ['\n'])).flatten
+/-- blank lines after the block -/
+def trailChars (C : List Line) : List Char := (C.map ('\n' :: ·)).flatten
+
+theorem joinNL_lead (A B : List Line) (hB : B ≠ []) : joinNL (A ++ B) = leadChars A ++ joinNL B := by
+  induction A with
+  | nil => rfl
+  | cons a as ih =>
+    have : as ++ B ≠ [] := by simp [hB]
+    rw [List.cons_append, joinNL_cons a _ this, ih]
+    simp [leadChars]
+
+theorem joinNL_trail (B C : List Line) (hB : B ≠ []) : joinNL (B ++ C) = joinNL B ++ trailChars C := by
+  induction B with
+  | nil => exact absurd rfl hB
+  | cons b bs ih =>
+    cases bs with
+    | nil =>
+      cases C with
+      | nil => simp [trailChars, joinNL]
+      | cons c cs =>
+        have h1 : joinNL ([b] ++ c :: cs) = b ++ '\n' :: joinNL (c :: cs) := joinNL_cons b _ (by simp)
+        have h2 := joinNL_lead [] (c :: cs) (by simp)
+        rw [h1]
+        -- joinNL (c :: cs) = c ++ trailChars cs, by the same induction on cs
+        have key : ∀ (c : Line) (cs : List Line), joinNL (c :: cs) = c ++ trailChars cs := by
+          intro c cs
+          induction cs generalizing c with
+          | nil => simp [joinNL, trailChars]
+          | cons d ds ihd =>
+            rw [joinNL_cons c _ (by simp), ihd d]
+            simp [trailChars]
+        rw [key c cs]
+        simp [joinNL, trailChars]
+    | cons b' bs' =>
+      have hne : b' :: bs' ≠ [] := by simp
+      have hne2 : (b' :: bs') ++ C ≠ [] := by simp
+      rw [List.cons_append, joinNL_cons b _ hne2, ih hne, joinNL_cons b _ hne]
+      simp
+
+theorem leadChars_blank {A : List Line} (hA : ∀ l ∈ A, SpacesOnly l) : LeadBlank (leadChars A) := by
+  cases hA' : A.getLast? with
+  | none =>
+    left
+    have : A = [] := List.getLast?_eq_none_iff.mp hA'
+    subst this; rfl
+  | some z =>
+    right
+    obtain ⟨A', rfl⟩ := List.getLast?_eq_some_iff.mp hA'
+    constructor
+    · intro x hx
+      simp only [leadChars, List.mem_flatten, List.mem_map] at hx
+      obtain ⟨l, ⟨a, ha, rfl⟩, hxl⟩ := hx
+      rcases List.mem_append.mp hxl with h | h
+      · rw [hA a ha x h]; decide
+      · simp at h; subst h; decide
+    · exact ⟨leadChars A' ++ z, by simp [leadChars]⟩
+
+theorem trailChars_blank {C : List Line} (hC : ∀ l ∈ C, SpacesOnly l) : TrailBlank (trailChars C) := by
+  cases C with
+  | nil => left; rfl
+  | cons c cs =>
+    right
+    constructor
+    · intro x hx
+      simp only [trailChars, List.mem_flatten, List.mem_map] at hx
+      obtain ⟨l, ⟨a, ha, rfl⟩, hxl⟩ := hx
+      rcases List.mem_cons.mp hxl with h | h
+      · subst h; decide
+      · rw [hC a ha x h]; decide
+    · exact ⟨c ++ trailChars cs, by simp [trailChars]⟩
+
+/-- a line with something to see on it: no newline inside, and a character that is not a blank -/
+def HasInk (l : Line) : Prop := (∀ c ∈ l, c ≠ '\n') ∧ ∃ c ∈ l, c ≠ ' '
+
+theorem ink_first {l : Line} (h : HasInk l) :
+    ∃ R c rest, l = R ++ c :: rest ∧ (∀ x ∈ R, x = ' ') ∧ isSpNl c = false := by
+  obtain ⟨hnl, c0, hc0, hne⟩ := h
+  induction l with
+  | nil => simp at hc0
+  | cons a as ih =>
+    by_cases ha : a = ' '
+    · have hmem : c0 ∈ as := by
+        rcases List.mem_cons.mp hc0 with h | h
+        · exact absurd (h ▸ ha) hne
+        · exact h
+      obtain ⟨R, c, rest, hl, hR, hc⟩ := ih (fun x hx => hnl x (by simp [hx])) hmem
+      exact ⟨a :: R, c, rest, by simp [hl], fun x hx => by
+        rcases List.mem_cons.mp hx with h | h
+        · exact h ▸ ha
+        · exact hR x h, hc⟩
+    · refine ⟨[], a, as, rfl, by simp, ?_⟩
+      have hn := hnl a (by simp)
+      simp [isSpNl, ha, hn]
+
+theorem hasInk_reverse {l : Line} (h : HasInk l) : HasInk l.reverse :=
+  ⟨fun c hc => h.1 c (List.mem_reverse.mp hc), by
+    obtain ⟨c, hc, hne⟩ := h.2
+    exact ⟨c, List.mem_reverse.mpr hc, hne⟩⟩
+
+theorem ink_last {l : Line} (h : HasInk l) :
+    ∃ body c R, l = body ++ c :: R ∧ (∀ x ∈ R, x = ' ') ∧ isSpNl c = false := by
+  obtain ⟨R, c, rest, hl, hR, hc⟩ := ink_first (hasInk_reverse h)
+  refine ⟨rest.reverse, c, R.reverse, ?_, fun x hx => hR x (List.mem_reverse.mp hx), hc⟩
+  have := congrArg List.reverse hl
+  simpa using this
+
+/-- the regex of `_tokenize_literal` removes exactly the blank lines before and after the block:
+the first and the last line of `B` keep every character, including their own leading and trailing blanks -/
+theorem stripBlankEnds_joinNL (A B C : List Line) (hA : ∀ l ∈ A, SpacesOnly l) (hC : ∀ l ∈ C, SpacesOnly l)
+    (hf : ∃ f Bt, B = f :: Bt ∧ HasInk f) (hz : ∃ Bi z, B = Bi ++ [z] ∧ HasInk z) :
+    stripBlankEnds (joinNL (A ++ B ++ C)) = joinNL B := by
+  obtain ⟨f, Bt, hB, hfi⟩ := hf
+  obtain ⟨Bi, z, hB2, hzi⟩ := hz
+  have hne : B ≠ [] := by simp [hB]
+  have hne2 : A ++ B ≠ [] := by simp [hne]
+  rw [joinNL_trail (A ++ B) C hne2, joinNL_lead A B hne]
+  unfold stripBlankEnds
+  -- the front
+  obtain ⟨R, c, rest, hfl, hR, hc⟩ := ink_first hfi
+  have hX : ∃ tail, joinNL B = R ++ c :: tail := by
+    rw [hB]
+    cases Bt with
+    | nil => exact ⟨rest, by simp [joinNL, hfl]⟩
+    | cons b bs => exact ⟨rest ++ '\n' :: joinNL (b :: bs), by rw [joinNL_cons f _ (by simp), hfl]; simp⟩
+  obtain ⟨tail, hX⟩ := hX
+  have h1 : cutLead (leadChars A ++ joinNL B ++ trailChars C) = joinNL B ++ trailChars C := by
+    rw [hX, List.append_assoc]
+    have : (R ++ c :: tail) ++ trailChars C = R ++ c :: (tail ++ trailChars C) := by simp
+    rw [this]
+    exact cutLead_blank_prefix _ R c _ (leadChars_blank hA) hR hc
+  rw [h1]
+  -- the back
+  obtain ⟨body, c', R', hzl, hR', hc'⟩ := ink_last hzi
+  have hY : ∃ front, joinNL B = front ++ c' :: R' := by
+    rw [hB2, joinNL_lead Bi [z] (by simp)]
+    exact ⟨leadChars Bi ++ body, by simp [joinNL, hzl]⟩
+  obtain ⟨front, hY⟩ := hY
+  rw [hY]
+  exact cutTrail_blank_suffix front c' R' _ (trailChars_blank hC) hR' hc'
+
+/-- after removing the first `bi` characters a line that is indented deeper than `bi` and not blank still
+has something to see -/
+theorem hasInk_drop {l : Line} {bi : Nat} (hnl : ∀ c ∈ l, c ≠ '\n') (hd : bi ≤ indentOf l) (hb : indentOf l < l.length) :
+    HasInk (l.drop bi) := by
+  refine ⟨fun c hc => hnl c (List.mem_of_mem_drop hc), ?_⟩
+  have hsplit := List.takeWhile_append_dropWhile (p := pyIsSpace) (l := l)
+  have hlen := indentOf_eq l
+  cases hdw : l.dropWhile pyIsSpace with
+  | nil =>
+    have := congrArg List.length hsplit
+    simp [hdw] at this
+    omega
+  | cons c cs =>
+    have hcns : pyIsSpace c = false := by
+      have := List.head_dropWhile_not (p := pyIsSpace) (l := l) (by simp [hdw])
+      simpa [hdw] using this
+    refine ⟨c, ?_, ?_⟩
+    · rw [← hsplit, hdw, List.drop_append_of_le_length (by omega)]
+      simp
+    · intro h; subst h; revert hcns; decide
+
+/-- the first `bi` characters that are removed from a line indented at least `bi` are white space -/
+theorem removed_prefix_is_space {l : Line} {bi : Nat} (hd : bi ≤ indentOf l) : (l.take bi).all pyIsSpace = true := by
+  have hsplit := List.takeWhile_append_dropWhile (p := pyIsSpace) (l := l)
+  rw [indentOf_eq] at hd
+  rw [← hsplit, List.take_append_of_le_length hd, List.all_eq_true]
+  intro x hx
+  exact (List.mem_takeWhile_imp (List.mem_of_mem_take hx))
+
+/-- **C09, literal blocks.**  `lines = before ++ lead ++ src ++ trail ++ after`, the paragraph ending in
+`::` has indentation `bi` and ends on the line before `lead`:
+* `lead`, `trail`: blank lines (spaces only) around the block;
+* `src`: the block — every line blank or indented deeper than `bi`, first and last line not blank, no
+  newline characters inside lines;
+* `after`: nothing, or a non-blank line indented no deeper than `bi`.
+Then the literal-block token holds exactly the lines of `src`, each without its first `bi` characters
+(white space, `removed_prefix_is_space`): every other character is kept — relative indentation, blank
+lines inside the block, trailing blanks of every line — the blank lines around the block are dropped,
+and tokenizing resumes at the first line of `after`. -/
+theorem literal_block_exact (before lead src trail after : List Line) (bi : Nat)
+    (hlead : ∀ l ∈ lead, SpacesOnly l) (htrail : ∀ l ∈ trail, SpacesOnly l)
+    (hsrc : ∀ l ∈ src, (SpacesOnly l ∨ bi < indentOf l) ∧ ∀ c ∈ l, c ≠ '\n')
+    (hf : ∃ f t, src = f :: t ∧ bi < indentOf f ∧ indentOf f < f.length)
+    (hz : ∃ i z, src = i ++ [z] ∧ bi < indentOf z ∧ indentOf z < z.length)
+    (ha : after = [] ∨ ∃ a as, after = a :: as ∧ a.length ≠ indentOf a ∧ indentOf a ≤ bi) :
+    tokenizeLiteral (before ++ lead ++ src ++ trail ++ after) before.length bi =
+      (joinNL (src.map (·.drop bi)), before.length + lead.length + src.length + trail.length) := by
+  obtain ⟨f, t, hsf, hf1, hf2⟩ := hf
+  obtain ⟨i, z, hsz, hz1, hz2⟩ := hz
+  have hcont : ∀ l ∈ lead ++ src ++ trail, Continues bi l := by
+    intro l hl
+    rcases List.mem_append.mp hl with h | h
+    · rcases List.mem_append.mp h with h | h
+      · exact Or.inl (blank_of_spaces (hlead l h))
+      · rcases (hsrc l h).1 with h' | h'
+        · exact Or.inl (blank_of_spaces h')
+        · exact Or.inr h'
+    · exact Or.inl (blank_of_spaces (htrail l h))
+  have hblock : ∃ x xs, lead ++ src ++ trail = x :: xs := by
+    cases hl : lead ++ src ++ trail with
+    | nil => simp [hsf] at hl
+    | cons x xs => exact ⟨x, xs, rfl⟩
+  obtain ⟨x, xs, hx⟩ := hblock
+  have hlines : before ++ lead ++ src ++ trail ++ after = before ++ (x :: xs) ++ after := by
+    rw [← hx]; simp
+  rw [hlines, tokenizeLiteral_slice before x xs after bi
+    (fun l hl => hcont l (by rw [hx]; simp [hl])) ha, ← hx]
+  have hlen : before.length + 1 + xs.length = before.length + lead.length + src.length + trail.length := by
+    have := congrArg List.length hx
+    simp at this
+    omega
+  rw [hlen, List.map_append, List.map_append]
+  congr 1
+  apply stripBlankEnds_joinNL
+  · intro l hl
+    obtain ⟨a, ha', rfl⟩ := List.mem_map.mp hl
+    exact spaces_drop (hlead a ha') bi
+  · intro l hl
+    obtain ⟨a, ha', rfl⟩ := List.mem_map.mp hl
+    exact spaces_drop (htrail a ha') bi
+  · exact ⟨f.drop bi, t.map (·.drop bi), by simp [hsf],
+      hasInk_drop (hsrc f (by simp [hsf])).2 (Nat.le_of_lt hf1) hf2⟩
+  · exact ⟨i.map (·.drop bi), z.drop bi, by simp [hsz],
+      hasInk_drop (hsrc z (by simp [hsz])).2 (Nat.le_of_lt hz1) hz2⟩
+
+/-- non-vacuity: paragraph at indentation 2, a blank line, three block lines at indentation 6/8 with a
+blank line inside and trailing blanks, a blank line, then a dedented line -/
+example :
+    tokenizeLiteral ["  p::".toList, "".toList, "      a = 1  ".toList, "".toList, "        b".toList, "  ".toList, "  next".toList] 1 2
+      = ("    a = 1  \n\n      b".toList, 6) := by
+  decide
+
+/-! ### doctest blocks -/
+
+theorem dropWhile_pad (k : Nat) (l : Line) : (List.replicate k ' ' ++ l).dropWhile pyIsSpace = l.dropWhile pyIsSpace := by
+  induction k with
+  | zero => rfl
+  | succ k ih =>
+    have : pyIsSpace ' ' = true := by decide
+    simp [List.replicate_succ, List.dropWhile, this, ih]
+
+theorem indentOf_pad (k : Nat) (l : Line) : indentOf (List.replicate k ' ' ++ l) = k + indentOf l := by
+  have h1 := indentOf_eq l
+  have hle : (l.dropWhile pyIsSpace).length ≤ l.length := List.length_dropWhile_le _ _
+  unfold indentOf at *
+  rw [dropWhile_pad]
+  simp
+  omega
+
+theorem dtLoop_run (bi : Nat) (after : List Line)
+    (ha : after = [] ∨ ∃ a as, after = a :: as ∧ indentOf a = a.length) (m : Nat) (es : List Nat) :
+    ∀ (xs : List Line) (n : Nat), (∀ l ∈ xs, indentOf l ≠ l.length ∧ bi ≤ indentOf l) →
+      dtLoop bi (xs ++ after) n m es = (n + xs.length, m, es) := by
+  intro xs
+  induction xs with
+  | nil =>
+    intro n _
+    rcases ha with rfl | ⟨a, as, rfl, h1⟩
+    · simp [dtLoop]
+    · simp [dtLoop, h1]
+  | cons x xs ih =>
+    intro n hx
+    obtain ⟨h1, h2⟩ := hx x (by simp)
+    have h3 : ¬ indentOf x < bi := by omega
+    simp only [List.cons_append, dtLoop, h1, h3, if_false]
+    rw [ih (n + 1) (fun l hl => hx l (by simp [hl]))]
+    simp; omega
+
+/-- **C09, doctest blocks.**  `lines = before ++ (body indented by bi) ++ after`; `body` starts with the
+`>>> ` line, its other lines are not blank (any relative indentation, any trailing blanks); `after` is
+nothing or starts with a blank line.  Then the doctest token holds exactly `body` joined by newlines —
+every character of every line — no error is recorded and tokenizing resumes at the blank line. -/
+theorem doctest_block_exact (before : List Line) (first : Line) (more after : List Line) (bi : Nat)
+    (hmore : ∀ l ∈ more, indentOf l < l.length)
+    (ha : after = [] ∨ ∃ a as, after = a :: as ∧ indentOf a = a.length) :
+    tokenizeDoctest (before ++ (first :: more).map (List.replicate bi ' ' ++ ·) ++ after) before.length bi =
+      (joinNL (first :: more), before.length + 1 + more.length, []) := by
+  unfold tokenizeDoctest
+  have hdrop : (before ++ (first :: more).map (List.replicate bi ' ' ++ ·) ++ after).drop (before.length + 1) =
+      more.map (List.replicate bi ' ' ++ ·) ++ after := by
+    rw [List.append_assoc, ← List.drop_drop, List.drop_left]
+    rfl
+  have hrun := dtLoop_run bi after ha bi [] (more.map (List.replicate bi ' ' ++ ·)) (before.length + 1)
+    (by
+      intro l hl
+      obtain ⟨a, ha', rfl⟩ := List.mem_map.mp hl
+      have := hmore a ha'
+      rw [indentOf_pad]
+      simp
+      omega)
+  rw [hdrop, hrun]
+  simp only [List.length_map]
+  have hsl : slice (before ++ (first :: more).map (List.replicate bi ' ' ++ ·) ++ after) before.length
+      (before.length + 1 + more.length) = (first :: more).map (List.replicate bi ' ' ++ ·) := by
+    have : before.length + 1 + more.length = before.length + ((first :: more).map (List.replicate bi ' ' ++ ·)).length := by
+      simp; omega
+    rw [this, slice_mid]
+  rw [hsl, List.map_map]
+  have : ((fun x => List.drop bi x) ∘ fun x => List.replicate bi ' ' ++ x) = id := by
+    funext x
+    simp [List.drop_left']
+  rw [this, List.map_id]
+
+/-- non-vacuity, and what happens to a line dedented below the prompt (an error is recorded and the
+common indentation shrinks — outside the hypothesis) -/
+example :
+    tokenizeDoctest ["  >>> f()".toList, "  1  ".toList, "".toList, "  x".toList] 0 2 = (">>> f()\n1  ".toList, 2, []) ∧
+    tokenizeDoctest ["  >>> f()".toList, " 1".toList] 0 2 = (" >>> f()\n1".toList, 2, [1]) := by
+  decide
+
+end Epytext
